@@ -39,7 +39,7 @@ RULE = (
 )
 PROBES = ["gate_after_reset", "random_measurement_on_photon", "control_on_photon", "wrapper_len_ge3",
           "forced_value_impossible", "full_branch_sweep", "sampled_branches", "initial_state_used",
-          "inserted_op", "measurement_prob_near_deterministic"]
+          "inserted_op", "measurement_prob_near_deterministic", "compiler_reused_after_other_circuit"]
 REAL = ["graphiq.backends.compiler_base.CompilerBase.compile", "StabilizerCompiler.compile_one_gate",
         "DensityMatrixCompiler.compile_one_gate", "graphiq.backends.stabilizer (tableau functions)",
         "graphiq.backends.density_matrix (state, functions)", "graphiq.circuit.circuit_dag.CircuitDAG", "graphiq.circuit.ops"]
@@ -105,10 +105,27 @@ def gen_case(run_seed, tier):
                 init.append([wl.choice(["CNOT", "CZ"]), a, b])
             else:
                 init.append([wl.choice(["H", "P", "X", "Y", "Z", "Pd"]), wl.randrange(regs)])
-    return {"ne": ne, "np": np_, "nc": nc, "history": prog, "init": init, "bseed": sz.randrange(10**9)}
+    case = {"ne": ne, "np": np_, "nc": nc, "history": prog, "init": init, "bseed": sz.randrange(10**9)}
+    if sz.random() < 0.5:
+        # a sibling circuit compiled first with the *same compiler objects*: a compile must not depend on what the
+        # compiler compiled before (same total register count but another emitter/photon split when possible)
+        total = ne + np_
+        splits = [(e, total - e) for e in range(1, 4) if 0 <= total - e <= 3 and (e, total - e) != (ne, np_)]
+        ne2, np2 = sz.choice(splits) if splits and sz.random() < 0.7 else (sz.randint(1, 3), sz.randint(0, 3))
+        case["sibling"] = {"ne": ne2, "np": np2, "nc": nc, "history": gen_program(wl, ne2, np2, nc, sz.randint(1, 8), False, None, 0.3)}
+    return case
 
 
 def simplify(case):
+    if case.get("sibling"):
+        c = dict(case)
+        c.pop("sibling")
+        yield c
+        sib = case["sibling"]
+        for i in range(len(sib["history"])):
+            c = dict(case)
+            c["sibling"] = dict(sib, history=sib["history"][:i] + sib["history"][i + 1:])
+            yield c
     if case.get("init"):
         c = dict(case)
         c["init"] = None
@@ -222,11 +239,12 @@ def state_matrix(backend, state, n):
 
 
 # ------------------------------------------------------------------------------------------------ one execution
-def execute(ctx, case, circ, model, backend, det, bits, psi0, factory, rnd_fallback=None):
+def execute(ctx, case, circ, model, backend, det, bits, psi0, factory, rnd_fallback=None, comp=None):
     """compile once; judge against the reference. returns (ok, n_random_draws_used, full_bits)"""
     ne, np_, nc = case["ne"], case["np"], case["nc"]
     n = ne + np_
-    comp = RecStab() if backend == "stab" else RecDM()
+    if comp is None:
+        comp = RecStab() if backend == "stab" else RecDM()
     comp.recorded = []
     comp.measurement_determinism = det
     script = OutcomeScript(bits, fallback=rnd_fallback if rnd_fallback is not None else 0)
@@ -366,12 +384,26 @@ def run_case(case):
 
     ok = True
     brng = random.Random(case["bseed"])
+    sib = None
+    if case.get("sibling"):
+        try:
+            sib = (case["sibling"],) + build(case["sibling"])
+        except Exception:
+            sib = None
     for backend in ("stab", "dm"):
         if not ok:
             break
+        # one compiler object per backend for the whole run (first use = fresh compiler)
+        comp = RecStab() if backend == "stab" else RecDM()
+        if sib is not None:
+            ctx.probe("compiler_reused_after_other_circuit")
+            ctx.steps += 1
+            ok, _, _ = execute(ctx, sib[0], sib[1], sib[2], backend, 1, [], None, None, comp=comp)
+            if not ok:
+                break
         for det in (0, 1):
             ctx.steps += 1
-            ok, _, _ = execute(ctx, case, circ, model, backend, det, [], psi0, factory)
+            ok, _, _ = execute(ctx, case, circ, model, backend, det, [], psi0, factory, comp=comp)
             ctx.fault("forced_outcome")
             if not ok:
                 break
@@ -384,7 +416,7 @@ def run_case(case):
         while queue and ok:
             bits = queue.pop(0)
             ctx.steps += 1
-            ok, nrand, used = execute(ctx, case, circ, model, backend, "probabilistic", bits, psi0, factory)
+            ok, nrand, used = execute(ctx, case, circ, model, backend, "probabilistic", bits, psi0, factory, comp=comp)
             if not ok:
                 break
             leaves += 1
@@ -399,7 +431,7 @@ def run_case(case):
             ctx.probe("sampled_branches")
             for _ in range(8):
                 ctx.steps += 1
-                ok, nrand, used = execute(ctx, case, circ, model, backend, "probabilistic", [], psi0, factory, rnd_fallback=random.Random(brng.randrange(10**9)))
+                ok, nrand, used = execute(ctx, case, circ, model, backend, "probabilistic", [], psi0, factory, rnd_fallback=random.Random(brng.randrange(10**9)), comp=comp)
                 ctx.fault("scripted_outcome", len(used))
                 ctx.log(backend, "sampled", used)
                 if not ok:
